@@ -239,6 +239,16 @@ func runC16(t *testing.T, seed int64, n int, out *Out) {
 				if vb {
 					res, _ = callTx(ctx, func(c sdk.Context) error { _, err := ms.FeedPrice(c, msg); return err })
 				}
+				switch {
+				case !vb:
+					stats["feedsigner/invalid-msg"]++
+				case !sf:
+					stats["feedsigner/not-registered"]++
+				case !sa:
+					stats["feedsigner/inactive"]++
+				default:
+					stats["feedsigner/active"]++
+				}
 				emit(J{"op": "feed", "signer": signer, "vb": vb, "feeds": feedsJ([]otypes.FeedPrice{msg.FeedPrice}),
 					"signer_found": sf, "signer_active": sa, "res": res, "store": storeDump()})
 			case c < 34: // FeedMultiplePrices
@@ -358,6 +368,12 @@ func runC16(t *testing.T, seed int64, n int, out *Out) {
 					ctx = ctx.WithBlockTime(time.Unix(now, 0).UTC()).WithBlockHeight(height)
 				}
 				before := len(k.GetAllPrice(ctx))
+				for _, q := range k.GetAllPrice(ctx) {
+					if int64(q.Timestamp+expiry) == now || int64(q.BlockHeight+life) == height {
+						stats["endblock/on-boundary"]++
+						break
+					}
+				}
 				res, _ := callTx(ctx, func(c sdk.Context) error { k.EndBlock(c); return nil })
 				st := storeDump()
 				stats["endblock/removed"] += before - len(st)
